@@ -294,9 +294,99 @@ template <typename D> static void run_case(const Case& c, const std::string& id)
   J.line(o.str());
 }
 
+
+// ---------------------------------------------------------------------------- tracing PSET
+// The real template Implementation::wrap_assign<PSET> (src/wrap_assign.hh) is instantiated with a
+// wrapper of C_Polyhedron that records, for every object, the symbolic term of the operations that
+// produced it, and every answer of is_empty / minimize / maximize.  The Lean driver runs the model
+// `wrapAssign` over the symbolic domain with the recorded answers and compares the final terms.
+//   term := I | B | R(term,row) | S(term,{row;row…}) | T(term,x,shift) | J(term,term) | U(term,x)
+//   row  := rel:k:a0:…:a(n-1)      (an equality is written as its two inequalities)
+struct TraceLog { std::vector<std::string> oracle; dimension_type n; };
+static TraceLog* g_trace = 0;
+static std::string row_str(const char* rel, const Coefficient& k, const std::vector<Coefficient>& a, bool neg) {
+  OS o; o << rel << ":" << (neg ? Coefficient(-k) : k);
+  for (size_t i = 0; i < a.size(); ++i) o << ":" << (neg ? Coefficient(-a[i]) : a[i]);
+  return o.str();
+}
+static void rows_of(const Constraint& c, dimension_type n, std::vector<std::string>& out) {
+  std::vector<Coefficient> a;
+  for (dimension_type i = 0; i < n; ++i) a.push_back(i < c.space_dimension() ? c.coefficient(Variable(i)) : Coefficient(0));
+  if (c.is_equality()) { out.push_back(row_str(">=", c.inhomogeneous_term(), a, false)); out.push_back(row_str(">=", c.inhomogeneous_term(), a, true)); }
+  else out.push_back(row_str(c.is_strict_inequality() ? ">" : ">=", c.inhomogeneous_term(), a, false));
+}
+struct Trace_PSET {
+  C_Polyhedron ph;
+  std::string term;
+  Trace_PSET(dimension_type n, Degenerate_Element k) : ph(n, k), term(k == EMPTY ? "B" : "I") {}
+  Trace_PSET(const C_Polyhedron& p, const std::string& t) : ph(p), term(t) {}
+  dimension_type space_dimension() const { return ph.space_dimension(); }
+  bool is_empty() const {
+    bool b = ph.is_empty();
+    g_trace->oracle.push_back("E " + term + " " + (b ? "1" : "0"));
+    return b;
+  }
+  bool opt(bool mx, const Linear_Expression& e, Coefficient& n, Coefficient& d, bool& ext) const {
+    bool ok = mx ? ph.maximize(e, n, d, ext) : ph.minimize(e, n, d, ext);
+    dimension_type x = e.space_dimension() - 1;
+    OS o; o << (mx ? "M " : "m ") << term << " " << x << " ";
+    if (ok) o << n << " " << d; else o << "none none";
+    g_trace->oracle.push_back(o.str());
+    return ok;
+  }
+  bool minimize(const Linear_Expression& e, Coefficient& n, Coefficient& d, bool& ext) const { return opt(false, e, n, d, ext); }
+  bool maximize(const Linear_Expression& e, Coefficient& n, Coefficient& d, bool& ext) const { return opt(true, e, n, d, ext); }
+  void unconstrain(Variable x) { ph.unconstrain(x); OS o; o << "U(" << term << "," << x.id() << ")"; term = o.str(); }
+  void affine_image(Variable x, const Linear_Expression& e, const Coefficient& den) {
+    ph.affine_image(x, e, den);
+    OS o; o << "T(" << term << "," << x.id() << "," << Coefficient(-e.inhomogeneous_term()) << ")"; term = o.str();
+  }
+  void refine_with_constraint(const Constraint& c) {
+    ph.refine_with_constraint(c);
+    std::vector<std::string> rows; rows_of(c, g_trace->n, rows);
+    for (size_t i = 0; i < rows.size(); ++i) term = "R(" + term + "," + rows[i] + ")";
+  }
+  void refine_with_constraints(const Constraint_System& cs) {
+    ph.refine_with_constraints(cs);
+    std::vector<std::string> rows;
+    for (Constraint_System::const_iterator i = cs.begin(); i != cs.end(); ++i) rows_of(*i, g_trace->n, rows);
+    std::string t = "S(" + term + ",{";
+    for (size_t i = 0; i < rows.size(); ++i) { if (i) t += ";"; t += rows[i]; }
+    term = t + "})";
+  }
+  void upper_bound_assign(const Trace_PSET& y) { ph.upper_bound_assign(y.ph); term = "J(" + term + "," + y.term + ")"; }
+  void m_swap(Trace_PSET& y) { ph.m_swap(y.ph); term.swap(y.term); }
+};
+
+static void run_trace(const Case& c, const std::string& id) {
+  OS o; o << "trace " << id << " " << describe(c) << " |";
+  TraceLog log; log.n = c.n; g_trace = &log;
+  try {
+    C_Polyhedron arg = build_poly<C_Polyhedron>(c.arg.ds.at(0), c.n);
+    Trace_PSET x(arg, "I");
+    Variables_Set vs;
+    for (size_t i = 0; i < c.vars.size(); ++i) vs.insert(Variable(c.vars[i]));
+    Implementation::wrap_assign(x, vs, width_of(c.w), c.r == 'u' ? UNSIGNED : SIGNED_2_COMPLEMENT,
+                                c.o == 'w' ? OVERFLOW_WRAPS : c.o == 'u' ? OVERFLOW_UNDEFINED : OVERFLOW_IMPOSSIBLE,
+                                c.hasguard ? &c.guard : 0, c.thr, c.ind, "Trace_PSET");
+    // the same call on the real class must give the same set (the template is what the library compiles)
+    C_Polyhedron y(arg);
+    y.wrap_assign(vs, width_of(c.w), c.r == 'u' ? UNSIGNED : SIGNED_2_COMPLEMENT,
+                  c.o == 'w' ? OVERFLOW_WRAPS : c.o == 'u' ? OVERFLOW_UNDEFINED : OVERFLOW_IMPOSSIBLE,
+                  c.hasguard ? &c.guard : 0, c.thr, c.ind);
+    o << " O " << log.oracle.size();
+    for (size_t i = 0; i < log.oracle.size(); ++i) o << " " << log.oracle[i];
+    o << " | F " << x.term << " | Q " << (y == x.ph ? 1 : 0);
+  } catch (...) {
+    o << " | X " << pplv::exc_class();
+  }
+  g_trace = 0;
+  J.line(o.str());
+}
+
 static void dispatch(const Case& c, const std::string& id) {
   const std::string& d = c.dom;
-  if (d == "C") run_case<C_Polyhedron>(c, id);
+  if (d == "C") { run_case<C_Polyhedron>(c, id); if (c.kind == 'W' && c.arg.ds.size() == 1 && c.arg.ds[0].mode == 'c') run_trace(c, id); }
   else if (d == "N") run_case<NNC_Polyhedron>(c, id);
   else if (d == "BQ") run_case<BD_Shape<mpq_class> >(c, id);
   else if (d == "BZ") run_case<BD_Shape<mpz_class> >(c, id);
